@@ -295,3 +295,4 @@ for _e in ENGINES:
         _e["serves_properties"] = ["C03", "C05", "C06", "C07", "C08", "C09", "C14", "C16", "C17"]
 ENGINES.append({"name": "entryabs", "path": "/verif/sdpverif/entryabs.py", "serves_properties": ["C19"],
                 "kind_free_text": "E3 interpreter with recorders for open / read / DDLParser(...) / run(...) / os / json / pprint / sys.exit: the entry points evaluated abstractly on scenario tables"})
+CHECKS["C19"]["note"] = "Decided on scenario tables by abstract evaluation: the file system, real decoding of bytes and argparse's own behaviour are outside (trusted: open / argparse / json). os.path and a minimal pathlib (Path(), /, mkdir(parents=, exist_ok=), open, name / stem / parent) are modelled; other libraries are outside the interpreted subset (exit 2, never a silent pass)."
